@@ -295,7 +295,10 @@ Definition handle_assoc (cur : N) (c : cstate) (d : cdiff) (o : obj) : cstate * 
       | TLock =>
           match tt with
           | Some TRegular | None =>
-              if object_status c target cur =? st_tombstoned then (c, d, EAlreadyRemoved)
+              (* a tombstone of the target forbids the lock even when the overall status hides it
+                 (expired target, or target protected by another lock) *)
+              if (object_status c target cur =? st_tombstoned) || (in_garbage c target =? st_tombstoned)
+              then (c, d, EAlreadyRemoved)
               else (c, mkDiff (d_phy d + 1) (d_root d) (d_ts d) (d_lock d + 1) (d_link d) (d_gc d) (d_payload d), EOk)
           | Some _ => (c, d, ELockNonRegular)
           end
